@@ -43,7 +43,15 @@ def paths(body):
                 return [cur + [("expr", s["e"]), ("ret", None)]]      # the contract handler / terminate does not return
             return nxt(cur + [("expr", s["e"])])
         if k == "return":
-            return [cur + [("ret", s.get("e"))]]
+            # `return c ? a : b;` is the two paths `if (c) return a; return b;`
+            def split(e, acc):
+                e0 = astx.strip_casts(e) if e is not None else None
+                while e0 is not None and e0.get("k") == "paren":
+                    e0 = astx.strip_casts(e0.get("e"))
+                if e0 is not None and e0.get("k") == "cond" and len(acc) < 8:
+                    return split(e0["t"], acc + [("cond", e0["c"], True)]) + split(e0["f"], acc + [("cond", e0["c"], False)])
+                return [acc + [("ret", e)]]
+            return [cur + tail for tail in split(s.get("e"), [])]
         if k in ("break", "continue"):
             return [cur + [(k,)]]
         if k == "if":
